@@ -309,6 +309,7 @@ def _theory(st):
 
     known = st["fns"] in ("ZM-VFNS", "FFNS", "FFN0", "FONLL-FFNS", "FONLL-FFN0")
     try:
+        yrun.log_cards(th, None)
         got = out.apply_pdf_theory(XPDF(), th)["F2_total"]
     except ValueError as e:
         if not known:
